@@ -1,5 +1,6 @@
 import Vata.Proofs.MtbddOps
 import Vata.Proofs.RcStore
+import Vata.Proofs.StoreRefine
 /-!
 # C17 – MTBDD operations are pointwise correct and representations are canonical
 
@@ -39,9 +40,12 @@ of construction within one process-wide node store*)
 * **The store across a history.**  That the real store indeed keeps one node per content "in every order of
   construction" is a statement about the unique tables along an operation history; it is modelled in
   `Vata/RcStore.lean` (property C18).  Proved there: after every history the two tables contain exactly the allocated
-  nodes, keyed by their contents (`RcS.tables_exact`), from which `C17_store_nodes_unique_partial` below derives that two
-  allocated nodes with the same contents are the same node.  NOT proved: that the store-level `construct`/`apply2` of
-  `Vata/RcStore.lean` unfold to the tree-level `M.construct`/`M.apply2` of this file (see the end of the file).
+  nodes, keyed by their contents (`RcS.tables_exact`).  From this (`Vata/Proofs/StoreRefine.lean`, last section of this
+  file): two allocated nodes whose unfoldings (`RcS.unfold`, the tree below the node) are structurally equal are the same
+  node and every unfolding is `M.WF` (`C17_store_nodes_canonical`), hence two live handles have the same root pointer iff
+  they denote the same function (`C17_store_equal_iff_same_function`); and the store-level `RcS.construct` / `RcS.apply2`
+  unfold to the tree-level `M.construct` / `M.apply2` of this file (`C17_store_construct`, `C17_store_apply`), so that
+  modelling pointer equality by structural equality of trees is a theorem about the store model, not an assumption.
 -/
 namespace Vata.Props
 open Vata Vata.M
@@ -247,14 +251,12 @@ example : voidApply2 OpsEx.exB OpsEx.exC = [(0, 100), (10, 100), (0, 0), (10, 0)
 
 /-! ### "in every order of construction within one process-wide node store" -/
 
-/-- PARTIAL.  In the model of the process-wide store (`Vata/RcStore.lean`: the two unique tables, reference counters,
-handles; histories of construct / copy / assign / binary apply with an arbitrary leaf operation `f` / destroy) after
-every history two allocated nodes with the same contents (same leaf value, or same `(low, high, var)`) are the same node:
-the store is hash-consed one level deep, whatever the order of construction and release.
-Missing for the full clause: (a) the induction from "same contents" to "same unfolding" (two allocated nodes whose
-unfoldings `RcS.unfold` are structurally equal are the same node); (b) that the unfoldings are `M.WF` and that the
-store-level `RcS.construct` / `RcS.apply2` unfold to `M.construct` / `M.apply2`, which would carry every theorem of this
-file over to handles of the store along a history -/
+/-- One level deep.  In the model of the process-wide store (`Vata/RcStore.lean`: the two unique tables, reference
+counters, handles; histories of construct / copy / assign / binary apply with an arbitrary leaf operation `f` / destroy)
+after every history two allocated nodes with the same contents (same leaf value, or same `(low, high, var)`) are the same
+node, whatever the order of construction and release.  (The name is historical; the full clause – same unfolding, same
+node; unfoldings are `M.WF`; the store operations unfold to the tree operations – is
+`C17_store_nodes_canonical`, `C17_store_equal_iff_same_function`, `C17_store_construct`, `C17_store_apply` below.) -/
 theorem C17_store_nodes_unique_partial (f : Nat → Nat → Nat) (ops : List RcS.Op) (n n' : Nat)
     (hn : n ∈ (RcS.runF f ops).ids) (hn' : n' ∈ (RcS.runF f ops).ids)
     (hd : (RcS.runF f ops).dat n = (RcS.runF f ops).dat n') : n = n' := by
@@ -267,19 +269,103 @@ theorem C17_store_nodes_unique_partial (f : Nat → Nat → Nat) (ops : List RcS
 example : RcS.tableSizes (RcS.runF RcS.applyOp RcS.Ex.ops) = (4, 6) ∧ (RcS.runF RcS.applyOp RcS.Ex.ops).ids.length = 10 := by
   decide
 
+/-- Hash-consing in full.  After every history of the store model (1) two allocated nodes whose unfoldings – the trees
+below them, `RcS.unfold` with the fuel used by `RcS.denote` – are structurally equal are the same node, and (2) the
+unfolding of every allocated node is ordered and reduced (`M.WF`).  So the map node ↦ diagram is an injection of the
+allocated nodes into the `WF` trees of this file: pointer equality of the store *is* structural equality of the tree
+model.  ((2) is proved through a second invariant `RcS.WfInv` – every allocated inner node has `low ≠ high`, the
+`assert` of `recDescend`, and children with smaller variables – preserved by every operation, `RcS.stepF_wfInv`) -/
+theorem C17_store_nodes_canonical (f : Nat → Nat → Nat) (ops : List RcS.Op) :
+    (∀ n n', n ∈ (RcS.runF f ops).ids → n' ∈ (RcS.runF f ops).ids →
+      RcS.unfold (RcS.runF f ops).dat (n+1) n = RcS.unfold (RcS.runF f ops).dat (n'+1) n' → n = n') ∧
+    (∀ n, n ∈ (RcS.runF f ops).ids → WF (RcS.unfold (RcS.runF f ops).dat (n+1) n)) :=
+  ⟨fun _ _ hn hn' he => RcS.unfold_injective (RcS.runF_inv f ops) hn hn' he, RcS.unfold_wf f ops⟩
+
+-- a store with 3 leaves and 7 inner nodes; the unfoldings of two of its inner nodes
+example : (RcS.runF RcS.applyOp RcS.RefineEx.ops).ids = [9, 8, 7, 6, 5, 4, 3, 2, 1, 0] ∧
+    RcS.unfold (RcS.runF RcS.applyOp RcS.RefineEx.ops).dat 8 7
+      = .node 1 (.node 0 (.leaf 0) (.leaf 5)) (.node 0 (.leaf 7) (.leaf 5)) ∧
+    RcS.unfold (RcS.runF RcS.applyOp RcS.RefineEx.ops).dat 10 9 = .node 1 (.node 0 (.leaf 0) (.leaf 5)) (.leaf 7) := by
+  decide
+
+/-- "Two MTBDDs compare equal exactly when they denote the same function", for handles of the store along any history:
+two live handles `h₁`, `h₂` have the same root pointer (`operator==` compares `root_`) iff their roots denote the same
+function (`RcS.denote`), iff `GetValue` agrees on them for every total assignment (`RcS.getValue`) -/
+theorem C17_store_equal_iff_same_function (f : Nat → Nat → Nat) (ops : List RcS.Op) (h₁ h₂ r₁ r₂ : Nat)
+    (hf₁ : RcS.find h₁ (RcS.runF f ops).hs = some r₁) (hf₂ : RcS.find h₂ (RcS.runF f ops).hs = some r₂) :
+    (r₁ = r₂ ↔ ∀ ρ, RcS.denote (RcS.runF f ops) r₁ ρ = RcS.denote (RcS.runF f ops) r₂ ρ) ∧
+    (RcS.find h₁ (RcS.runF f ops).hs = RcS.find h₂ (RcS.runF f ops).hs ↔
+      ∀ ρ, RcS.getValue (RcS.runF f ops) h₁ ρ = RcS.getValue (RcS.runF f ops) h₂ ρ) :=
+  ⟨RcS.handle_eq_iff_same_function f ops (RcS.find_some_mem hf₁) (RcS.find_some_mem hf₂),
+   RcS.handle_eq_iff_same_getValue f ops hf₁ hf₂⟩
+
+-- handles 3 and 4 are results of two applies with swapped operands, one operand built from a different cube list: same
+-- root; handles 5 and 6 have different roots
+example : RcS.find 3 (RcS.runF RcS.applyOp RcS.RefineEx.ops).hs = some 7 ∧
+    RcS.find 4 (RcS.runF RcS.applyOp RcS.RefineEx.ops).hs = some 7 ∧
+    RcS.find 5 (RcS.runF RcS.applyOp RcS.RefineEx.ops).hs = some 8 ∧
+    RcS.find 6 (RcS.runF RcS.applyOp RcS.RefineEx.ops).hs = some 9 := by decide
+example : RcS.RefineEx.ops = [.construct 0 [some true, none] 5 0, .construct 1 [some true] 5 0,
+    .construct 2 [some false, some true] 7 0, .apply 0 2 3, .apply 2 1 4, .destroy 0, .construct 5 [none, some true] 7 0,
+    .apply 5 1 6] := rfl
+
+open Classical in
+/-- Refinement of construction.  After any history, `OndriksMTBDD h(asgn, v, d)` for a fresh handle name `h` yields a
+live handle whose root unfolds to exactly the diagram `construct asgn v d` of the tree model (so `C17_construct_value`,
+`C17_construct_wellformed`, … speak about the store's node), and `GetValue` of the handle is `v` on the cube, `d`
+elsewhere -/
+theorem C17_store_construct (f : Nat → Nat → Nat) (ops : List RcS.Op) (h : Nat) (asgn : List (Option Bool)) (v d : Nat)
+    (hf : RcS.find h (RcS.runF f ops).hs = none) :
+    ∃ r, RcS.find h (RcS.runF f (ops ++ [.construct h asgn v d])).hs = some r ∧
+      RcS.unfold (RcS.runF f (ops ++ [.construct h asgn v d])).dat (r+1) r = construct asgn v d ∧
+      ∀ ρ, RcS.getValue (RcS.runF f (ops ++ [.construct h asgn v d])) h ρ
+          = some (if agrees ρ asgn 0 = true then v else d) ∧
+        RcS.getValue (RcS.runF f (ops ++ [.construct h asgn v d])) h ρ
+          = some (if (∀ i b, asgn[i]? = some (some b) → ρ i = b) then v else d) := by
+  obtain ⟨r, h1, h2, _⟩ := RcS.construct_denotes f ops h asgn v d hf
+  refine ⟨r, h1, h2, fun ρ => ?_⟩
+  have h3 := RcS.construct_getValue f ops h asgn v d hf ρ
+  refine ⟨h3, ?_⟩
+  rw [h3, ← construct_eval_agrees, construct_eval]
+
+example : RcS.find 7 (RcS.runF RcS.applyOp RcS.RefineEx.ops).hs = none := by decide
+example : RcS.find 7 (RcS.runF RcS.applyOp (RcS.RefineEx.ops ++ [.construct 7 [none, some false] 3 4])).hs = some 12 ∧
+    RcS.unfold (RcS.runF RcS.applyOp (RcS.RefineEx.ops ++ [.construct 7 [none, some false] 3 4])).dat 13 12
+      = .node 1 (.leaf 3) (.leaf 4) := by decide
+
+/-- Refinement of the binary apply.  After any history, `OndriksMTBDD dst = apply(a, b)` with leaf operation `f`, for
+live handles `a`, `b` (roots `ra`, `rb`) and a fresh name `dst`, yields a live handle whose root unfolds to exactly
+`apply2 f` of the unfoldings of `ra` and `rb` (the store-level `recDescend` with its pointer test `low == high` and its
+two unique tables computes the tree-level `apply2` with `mk`; so `C17_apply_pointwise`, `C17_apply_wellformed`,
+`C17_apply_results_canonical` speak about the store's node), and denotes the pointwise `f` of the operands, which keep
+their roots -/
+theorem C17_store_apply (f : Nat → Nat → Nat) (ops : List RcS.Op) (a b dst ra rb : Nat)
+    (ha : RcS.find a (RcS.runF f ops).hs = some ra) (hb : RcS.find b (RcS.runF f ops).hs = some rb)
+    (hd : RcS.find dst (RcS.runF f ops).hs = none) :
+    ∃ r, RcS.find dst (RcS.runF f (ops ++ [.apply a b dst])).hs = some r ∧
+      RcS.find a (RcS.runF f (ops ++ [.apply a b dst])).hs = some ra ∧
+      RcS.find b (RcS.runF f (ops ++ [.apply a b dst])).hs = some rb ∧
+      RcS.unfold (RcS.runF f (ops ++ [.apply a b dst])).dat (r+1) r =
+        apply2 f (RcS.unfold (RcS.runF f (ops ++ [.apply a b dst])).dat (ra+1) ra)
+          (RcS.unfold (RcS.runF f (ops ++ [.apply a b dst])).dat (rb+1) rb) ∧
+      ∀ ρ, RcS.denote (RcS.runF f (ops ++ [.apply a b dst])) r ρ =
+        f (RcS.denote (RcS.runF f (ops ++ [.apply a b dst])) ra ρ)
+          (RcS.denote (RcS.runF f (ops ++ [.apply a b dst])) rb ρ) :=
+  RcS.apply_denotes f ops a b dst ra rb ha hb hd
+
+example : RcS.find 5 (RcS.runF RcS.applyOp RcS.RefineEx.ops).hs = some 8 ∧
+    RcS.find 1 (RcS.runF RcS.applyOp RcS.RefineEx.ops).hs = some 2 ∧
+    RcS.find 7 (RcS.runF RcS.applyOp RcS.RefineEx.ops).hs = none := by decide
+-- the result is the node that handle 6 (an earlier apply of the same operands) already has
+example : RcS.find 7 (RcS.runF RcS.applyOp (RcS.RefineEx.ops ++ [.apply 5 1 7])).hs = some 9 := by decide
+
 /-!
 ## not yet proved
 
-* **The history part of the quantifier.**  All theorems except the last are about the tree model, in which sharing is
-  implicit (structural equality).  That the real store realises this – along every history of constructions, applies
-  and releases the unique tables return the existing node for an existing content, so that pointer equality coincides
-  with structural equality of the unfoldings – is proved only one level deep (`C17_store_nodes_unique_partial`, from
-  `RcS.tables_exact`).  There is no refinement theorem from the store model `Vata/RcStore.lean` (`RcS.construct`,
-  `RcS.recDescend`) to the tree model of this file (`M.construct`, `M.apply2`), and no theorem that the unfolding of an
-  allocated node is `M.WF`.  Consequently "`operator==` of two handles ⇔ same function" is a theorem for the tree model
-  only; for the store it is covered by the correspondence check (C17/C18 history drivers).
-* The store model has the binary apply only; unary/ternary apply, `Project`, `Rename`, `ExtendWith`,
-  `GetMtbddForPrefix` exist at tree level only.
+* The store model has the binary apply and the 3-argument constructor only; unary/ternary apply, `Project`, `Rename`,
+  `ExtendWith`, `GetMtbddForPrefix` exist at tree level only (no store-level model, hence no refinement theorem for them).
+* The refinement theorems (`C17_store_…`) are about the store *model* `Vata/RcStore.lean`; that this model and
+  `OndriksMTBDD<T>` agree step by step is the correspondence check of the C17/C18 history drivers, not a theorem.
 * The memo tables `ht` of the apply functors are not modelled (so "a cached result is the result that would be
   recomputed" is not a theorem; it follows informally from determinism of `recDescend` and from canonicity).
 * Projection is characterised under algebraic hypotheses on the leaf operation (`C17_project`: idempotent, one variable;
